@@ -20,6 +20,29 @@ def sig_of(rej, scn):
     return "C13:%s:%s" % (why, what)
 
 
+def extension_replies(c, drv, specs):
+    """Specification growth beyond the property (specs/emu/EmuReplies.tla): the emulator's answers to DSR, CPR, DA1 and
+    DECRQM after histories of mode changes and cursor movements.  Disagreements are recorded in the evidence as
+    extension findings; they are not violations of C13 and never change the exit status."""
+    before = {k: c.cov[k] for k in ("traces_validated_against_impl", "evaluations") if k in c.cov}
+    try:
+        tr = c.drive(drv, "c13r", sub="replies", shards=4)
+        rej, _ = c.validate_traces(specs, "EmuReplies_Trace.tla", "EmuReplies_Trace.cfg", tr, label="extension: emulator replies")
+    except Exception as e:            # an extension never decides anything
+        c.notes.append("extension EmuReplies not evaluated: %s" % e)
+        c.cov.update(before)
+        return
+    import json as _json
+    meta = _json.load(open(tr + "/meta.json"))
+    c.cov.update(before)
+    by = {}
+    for r in rej:
+        k = "%s:%s" % (r.get("q"), r.get("why"))
+        by[k] = by.get(k, 0) + 1
+    c.cov["extension_emulator_replies"] = {"histories": meta["scenarios"], "events": meta["events"], "disagreements": by,
+                                           "note": "not part of C13's statement; recorded, not judged"}
+
+
 def main(c):
     drv = c.build()
     specs = c.stage_specs("input", "emu")
@@ -42,6 +65,8 @@ def main(c):
             ("mouse: decoded column off by one", selfmut.mouse_off_by_one),
             ("mouse: report without tracking mode", selfmut.mouse_unrequested),
 ])
+    if not c.replay:
+        extension_replies(c, drv, specs)
     idx = c.load_index(td)
     c.count_distinct(idx)
     for s in list(idx.values())[:3]:
